@@ -167,8 +167,11 @@ Definition C04_operations_keep_their_module_full : Prop := forall c s ops p,
 
 Theorem C04_operations_keep_their_module_refuted : ~ C04_operations_keep_their_module_full.
 Proof.
-  intro H. specialize (H (cfg0 false []) sum0 [q "GetX" ["GetX"]; q "getX" ["GetX"]]).
-  vm_compute in H. specialize (H _ eq_refl 0 1 _ _ eq_refl eq_refl). apply H; [discriminate | reflexivity].
+  intro H.
+  assert (exists p, generate (cfg0 false []) sum0 [q "GetX" ["GetX"]; q "getX" ["GetX"]] = Ok p) as [p E]
+    by (eexists; vm_compute; reflexivity).
+  specialize (H _ _ _ _ E 0 1 (q "GetX" ["GetX"]) (q "getX" ["GetX"]) eq_refl eq_refl).
+  apply H; [discriminate | vm_compute; reflexivity].
 Qed.
 Print Assumptions C04_operations_keep_their_module_refuted.
 
